@@ -126,8 +126,9 @@ Section ClassFacts.
   Notation blocks_go := (blocks_go cic afuel).
   Notation loop_side := (loop_side globals cic).
 
-  Lemma loop_side_spec : forall iv w body lo_s L Lb, loop_side iv w body lo_s L Lb = true ->
-    (forall x, In x (sinter (assigned_block cic body) (sunion (exposed_uses cic body) lo_s)) -> In x L) /\
+  Lemma loop_side_spec : forall iv w body lo_s L Lf Lb, loop_side iv w body lo_s L Lf Lb = true ->
+    (forall x, In x Lf -> In x L) /\
+    (forall x, In x (sinter (assigned_block cic body) (sunion (exposed_uses cic body) lo_s)) -> In x Lf) /\
     (forall x, In x Lb -> ~ In x (iv :: sinter (assigned_block cic body) (sunion (exposed_uses cic body) lo_s)) ->
                In x L /\ ~ In x (assigned_block cic body)) /\
     (forall x, In x lo_s -> ~ In x (iv :: sinter (assigned_block cic body) (sunion (exposed_uses cic body) lo_s)) -> In x L) /\
@@ -135,12 +136,13 @@ Section ClassFacts.
     (forall x, In x (sinter (assigned_block cic body) (sunion (exposed_uses cic body) lo_s)) -> lookup_assoc x globals = None) /\
     (w = true -> ~ In iv Lb).
   Proof.
-    intros iv w body lo_s L Lb H. unfold TranslateNestDefs.loop_side in H. cbv zeta in H.
+    intros iv w body lo_s L Lf Lb H. unfold TranslateNestDefs.loop_side in H. cbv zeta in H.
     apply andb_true_iff in H. destruct H as [H C8]. apply andb_true_iff in H. destruct H as [H C7].
     apply andb_true_iff in H. destruct H as [H C6]. apply andb_true_iff in H. destruct H as [H C5].
-    apply andb_true_iff in H. destruct H as [H C4]. apply andb_true_iff in H. destruct H as [C2 C3].
+    apply andb_true_iff in H. destruct H as [H C4]. apply andb_true_iff in H. destruct H as [H C3].
+    apply andb_true_iff in H. destruct H as [C0 C2].
     apply negb_true_iff in C5. apply negb_true_iff in C6.
-    split; [apply In_ssubset; exact C2|]. split.
+    split; [apply In_ssubset; exact C0|]. split; [apply In_ssubset; exact C2|]. split.
     { intros x Hx Hn. assert (Hd : In x (sdiff L (assigned_block cic body))).
       { apply (In_ssubset _ _ C3). apply In_sdiff. split; assumption. }
       apply In_sdiff in Hd. exact Hd. }
@@ -174,16 +176,18 @@ Section ClassFacts.
         apply In_sunion. left. apply In_sunion. left.
         eapply Hrec; [exact Hct | exact Hx | | exact E1]. intro H. apply Hn. apply In_sunion. left. exact H.
     - cbn [TranslateNestDefs.stmt_ok] in Hc. apply andb_true_iff in Hc. destruct Hc as [_ Hc]. rewrite Hl in Hc.
-      destruct (live_block cic afuel body L) as [Lb|]; [|discriminate].
+      destruct (loop_fixpoint cic afuel (SFor i b body) lo_s) as [Lf|]; [|discriminate].
+      destruct (live_block cic afuel body Lf) as [Lb|]; [|discriminate].
       apply andb_true_iff in Hc. destruct Hc as [Hc _]. apply andb_true_iff in Hc. destruct Hc as [_ Hside].
-      apply loop_side_spec in Hside. destruct Hside as (_ & _ & S4 & _).
+      apply loop_side_spec in Hside. destruct Hside as (_ & _ & _ & S4 & _).
       rewrite assigned_for in Hn. apply S4; [exact Hx|]. intros [E|H].
       + apply Hn. apply In_sunion. right. left. exact E.
       + apply Hn. apply In_sunion. left. apply In_sinter in H. apply H.
     - cbn [TranslateNestDefs.stmt_ok] in Hc. rewrite Hl in Hc.
-      destruct (live_block cic afuel body L) as [Lb|]; [|discriminate].
+      destruct (loop_fixpoint cic afuel (SWhile c body) lo_s) as [Lf|]; [|discriminate].
+      destruct (live_block cic afuel body Lf) as [Lb|]; [|discriminate].
       apply andb_true_iff in Hc. destruct Hc as [Hc _]. apply andb_true_iff in Hc. destruct Hc as [_ Hside].
-      apply loop_side_spec in Hside. destruct Hside as (_ & _ & S4 & S5 & _).
+      apply loop_side_spec in Hside. destruct Hside as (_ & _ & _ & S4 & S5 & _).
       rewrite assigned_while in Hn. apply S4; [exact Hx|]. intros [E|H].
       + subst x. contradiction.
       + apply Hn. apply In_sinter in H. apply H.
@@ -519,12 +523,12 @@ Section Nest.
 
   (* ---- a loop statement after its header *)
   Lemma loop_core_sound : forall fu k', blocks_okN fu -> fu <= k' ->
-    forall s body lo_s sc outs iv cnd cin o_bound o_cond while_c w stb stc res st' nodes pe (ρ1 : env V) f2 o1 L Lb,
+    forall s body lo_s sc outs iv cnd cin o_bound o_cond while_c w stb stc res st' nodes pe (ρ1 : env V) f2 o1 L Lf Lb,
     w = is_some while_c ->
-    loop_fixpoint cic afuel s lo_s = Some L ->
-    live_block cic afuel body L = Some Lb ->
-    loop_side iv w body lo_s L Lb = true ->
-    body_ok (body_sok (block_ok fu)) w body L = true ->
+    loop_fixpoint cic afuel s lo_s = Some Lf ->
+    live_block cic afuel body Lf = Some Lb ->
+    loop_side iv w body lo_s L Lf Lb = true ->
+    body_ok (body_sok (block_ok fu)) w body Lf = true ->
     inv_on L pe sc ρ1 stb -> all_PT pe ->
     gen_unique cnd stb = Some (cin, stc) ->
     tr_loop_core globals cic afuel inputs fu s body lo_s sc outs iv cin o_bound o_cond while_c stc = Some (res, st', nodes) ->
@@ -532,15 +536,15 @@ Section Nest.
     | None => exists b bv n, o_bound = Some b /\ o_cond = None /\ lookup ρ1 b = Some bv /\ trip bv = Some n /\
                              for_iter f2 iv body n 0 pe = Some o1
     | Some c => exists oc cval, o_bound = None /\ o_cond = Some oc /\ lookup ρ1 oc = Some cval /\
-                                plookup V pe c = Some (PT V cval) /\ In c L /\
+                                plookup V pe c = Some (PT V cval) /\ In c Lf /\
                                 while_iter f2 c body while_limit pe = Some o1
     end ->
     exists pe_n ρ2, o1 = ONormal V pe_n /\ runk (S k') ρ1 nodes = Some ρ2 /\ inv_on lo_s pe_n (fst res) ρ2 st' /\ all_PT pe_n /\
                     grows V ρ1 ρ2 stb st' /\ snd res = outs.
   Proof.
-    intros fu k' IHb Hfu s body lo_s sc outs iv cnd cin o_bound o_cond while_c w stb stc res st' nodes pe ρ1 f2 o1 L Lb
+    intros fu k' IHb Hfu s body lo_s sc outs iv cnd cin o_bound o_cond while_c w stb stc res st' nodes pe ρ1 f2 o1 L Lf Lb
            Hw Hfix Elb Hside Hclass Hinv1 Hall Hcin Hcore Hpy.
-    apply loop_side_spec in Hside. destruct Hside as (S2 & S3 & S4 & S5 & S6 & S7 & S8).
+    apply loop_side_spec in Hside. destruct Hside as (S0L & S2 & S3 & S4 & S5 & S6 & S7 & S8).
     set (A := assigned_block cic body) in *. set (S0 := sinter A (sunion (exposed_uses cic body) lo_s)) in *.
     unfold tr_loop_core in Hcore. fold A in Hcore. fold S0 in Hcore.
     apply bind_some in Hcore. destruct Hcore as (state & std & ns1 & ns1' & Hls & Hcore & ->).
@@ -581,7 +585,8 @@ Section Nest.
     (* facts about the state *)
     assert (HsA : forall x, In x state -> In x A).
     { intros x Hx. apply Hmem in Hx. apply In_sinter in Hx. apply Hx. }
-    assert (HsL : incl state L). { intros x Hx. apply S2. apply Hmem. exact Hx. }
+    assert (HsLf : incl state Lf). { intros x Hx. apply S2. apply Hmem. exact Hx. }
+    assert (HsL : incl state L). { intros x Hx. apply S0L. apply HsLf. exact Hx. }
     assert (Hng : forall x, In x state -> lookup_assoc x globals = None). { intros x Hx. apply S7. apply Hmem. exact Hx. }
     assert (HLb : forall x, In x Lb -> ~ In x (iv :: state) -> In x L /\ ~ In x A).
     { intros x Hx Hn. apply S3; [exact Hx|]. intros [E|H]; [apply Hn; left; exact E | apply Hn; right; apply Hmem; exact H]. }
@@ -621,7 +626,7 @@ Section Nest.
           exists (of_nat j). split; [cbn [plookup]; rewrite String.eqb_refl; reflexivity | exact Rlv]. }
       assert (Hall_b : all_PT pe_b).
       { subst pe_b. destruct w; [exact Hall_i|]. apply all_PT_cons; [exact Hall_i | reflexivity]. }
-      destruct (loop_body_gen fu k' IHb Hfu w L body _ stf sc_b brk stg ns0 Lb pe_b ρb f2' o_b Hclass Hbody Elb Hinv_b Hall_b Eb)
+      destruct (loop_body_gen fu k' IHb Hfu w Lf body _ stf sc_b brk stg ns0 Lb pe_b ρb f2' o_b Hclass Hbody Elb Hinv_b Hall_b Eb)
         as (pe' & ρ' & R2 & Hinv' & Hall' & G' & Hbrk).
       assert (Hcin_used : In cin (ts_used stf)). { eapply (proj1 (proj2 (proj2 (proj2 Gb)))). exact Lcin. }
       assert (Lcin' : lookup ρ' cin = Some (of_bool true)). { rewrite (proj1 G') by exact Hcin_used. exact Lcin. }
@@ -645,7 +650,7 @@ Section Nest.
           destruct (emit_op_sound V sem truth trip of_nat of_bool limit (eval_graph k') "" "Not" [] [Some bvn] [Some bval] r1 stg nb sta ρ' "not_break"
                       (proj2 (proj2 Hinv')) (fun _ => eq_refl) ltac:(cbn [lookup_opts]; rewrite Lb_; reflexivity)
                       ltac:(unfold sem1; rewrite Sn; reflexivity) Hnb) as (ρa & Ra & Rla & Ga).
-          destruct (inv_on_bound V L pe' sc_b ρ' stg c (BV wvn) Hinv' Hall' HcL (scopes_find_cur c sc_b _ Hsf))
+          destruct (inv_on_bound V Lf pe' sc_b ρ' stg c (BV wvn) Hinv' Hall' HcL (scopes_find_cur c sc_b _ Hsf))
             as (n & wv & En & Hpw & Hlw & _). inversion En; subst n. clear En.
           destruct (truth_total Hwb1 wv) as (wt & Twt).
           assert (Hlw' : lookup ρa wvn = Some wv).
@@ -672,7 +677,7 @@ Section Nest.
           destruct Hwc as (wvn & -> & Hsf). subst o_b.
           destruct Hpy as (oc & cval & _ & _ & _ & _ & HcL & _).
           unfold tr_cond, identity, node1 in Hcond. apply finish_inv in Hcond. destruct Hcond as (Hco & ->).
-          destruct (inv_on_bound V L pe' sc_b ρ' stg c (BV wvn) Hinv' Hall' HcL (scopes_find_cur c sc_b _ Hsf))
+          destruct (inv_on_bound V Lf pe' sc_b ρ' stg c (BV wvn) Hinv' Hall' HcL (scopes_find_cur c sc_b _ Hsf))
             as (n & wv & En & Hpw & Hlw & _). inversion En; subst n. clear En.
           destruct (identity_copy V sem truth trip of_nat of_bool limit (eval_graph k') sem_identity ρ' stg "cond_out" co sth wvn wv
                       (proj2 (proj2 Hinv')) Hlw Hco) as (Rc & Gc).
@@ -686,8 +691,8 @@ Section Nest.
           exists ((co, of_bool true) :: ρ'), (of_bool true), true. split; [reflexivity|]. split; [exact Rc|].
           split; [cbn [lookup]; rewrite String.eqb_refl; reflexivity|]. split; [exact Gc | apply truth_of_bool]. }
       destruct Hc7 as (ρc & cv' & cont & -> & Rc & Lco & Gc & Hcv).
-      destruct (loop_outputs_sound V sem truth trip of_nat of_bool limit globals sem_identity k' state sc_b _ _ sth ro rn sti nlo pe' ρc L
-                  Hlo (inv_on_grows V _ _ _ _ _ _ _ Hinv' Gc) Hall' HsL Hng) as (extra & ρ3 & vals & En & R3 & L3 & F3 & G3).
+      destruct (loop_outputs_sound V sem truth trip of_nat of_bool limit globals sem_identity k' state sc_b _ _ sth ro rn sti nlo pe' ρc Lf
+                  Hlo (inv_on_grows V _ _ _ _ _ _ _ Hinv' Gc) Hall' HsLf Hng) as (extra & ρ3 & vals & En & R3 & L3 & F3 & G3).
       assert (Hco_used : In co (ts_used sth)). { eapply (proj1 (proj2 (proj2 (proj2 Gc)))). exact Lco. }
       exists pe', vals, cv', cont. split; [reflexivity|]. split.
       { cbn [Sem.eval_graph]. unfold eval_body. cbn [g_ins g_nodes g_outs]. rewrite Bb, En, run_app, run_app, R2, Rc, R3.
@@ -977,7 +982,8 @@ Section Nest.
         exists sc1, st1, n1, n2, pe1, ρ1. repeat (split; [first [reflexivity | assumption]|]). exact Hex.
     - (* for *)
       cbn [TranslateNestDefs.stmt_ok] in Hs. rewrite Hl in Hs. apply andb_true_iff in Hs. destruct Hs as [Hrb Hs].
-      destruct (live_block cic afuel body L) as [Lb|] eqn:Elb; [|discriminate Hs].
+      destruct (loop_fixpoint cic afuel (SFor i b body) lo_s) as [Lf|] eqn:Efx; [|discriminate Hs].
+      destruct (live_block cic afuel body Lf) as [Lb|] eqn:Elb; [|discriminate Hs].
       apply andb_true_iff in Hs. destruct Hs as [Hs Hclass]. apply andb_true_iff in Hs. destruct Hs as [C1 Hside].
       rewrite tr_stmts_for' in Htr.
       apply bind_some in Htr. destruct Htr as (lo_s' & st0 & n0 & n0' & Hlift & Htr & ->).
@@ -1009,8 +1015,8 @@ Section Nest.
       assert (Lb_b : lookup ρ1 b0 = Some bv). { rewrite <- Ebv. destruct vb; destruct Rbv as [Lr _]; exact Lr. }
       pose proof (inv_on_grows V _ _ _ _ _ _ _ Hinv Gb) as Hinv1.
       destruct (loop_core_sound fu k' IH Hk' (SFor i b body) body lo_s sc outs i "cond_in" cin (Some b0) None None false stb stc
-                  (sc1, outs1) st1 nh' pe ρ1 f2 o1 L Lb eq_refl
-                  ltac:(rewrite <- (live_for_fixpoint cic afuel); exact Hl) Elb Hside Hclass Hinv1 Hall Hcin Hfor
+                  (sc1, outs1) st1 nh' pe ρ1 f2 o1 L Lf Lb eq_refl
+                  Efx Elb Hside Hclass Hinv1 Hall Hcin Hfor
                   ltac:(exists b0, bv, n; auto))
         as (pe_n & ρ2 & -> & R2 & Hinv2 & Halln & G2 & Eo). cbn [fst snd] in *. subst outs1.
       exists sc1, st1, (nb ++ nh'), n2, pe_n, ρ2.
@@ -1019,9 +1025,11 @@ Section Nest.
       split; [eapply grows_trans; eassumption | exact Hex].
     - (* while *)
       cbn [TranslateNestDefs.stmt_ok] in Hs. rewrite Hl in Hs.
-      destruct (live_block cic afuel body L) as [Lb|] eqn:Elb; [|discriminate Hs].
+      destruct (loop_fixpoint cic afuel (SWhile c body) lo_s) as [Lf|] eqn:Efx; [|discriminate Hs].
+      destruct (live_block cic afuel body Lf) as [Lb|] eqn:Elb; [|discriminate Hs].
       apply andb_true_iff in Hs. destruct Hs as [Hs Hclass]. apply andb_true_iff in Hs. destruct Hs as [Hs Hside].
-      apply andb_true_iff in Hs. destruct Hs as [HcL Hcg]. apply mem_In in HcL.
+      apply andb_true_iff in Hs. destruct Hs as [HcLf Hcg]. apply mem_In in HcLf.
+      assert (HcL : In c L). { pose proof (loop_side_spec globals cic _ _ _ _ _ _ _ Hside) as Hsp. apply (proj1 Hsp). exact HcLf. }
       assert (Hcg' : lookup_assoc c globals = None) by (destruct (lookup_assoc c globals); [discriminate Hcg | reflexivity]).
       rewrite tr_stmts_while' in Htr.
       apply bind_some in Htr. destruct Htr as (lo_s' & st0 & n0 & n0' & Hlift & Htr & ->).
@@ -1039,8 +1047,8 @@ Section Nest.
       destruct (exec_stmt1 f2 (SWhile c body) pe) as [o1|] eqn:Es; [|discriminate].
       cbn [AnalysisProofs.exec_stmt1] in Es.
       destruct (loop_core_sound fu k' IH Hk' (SWhile c body) body lo_s sc outs "infinite_loop" c cp None (Some nn) (Some c) true st stc
-                  (sc1, outs1) st1 nh' pe ρ f2 o1 L Lb eq_refl
-                  ltac:(rewrite <- (live_while_fixpoint cic afuel); exact Hl) Elb Hside Hclass Hinv Hall Hcp Hwh
+                  (sc1, outs1) st1 nh' pe ρ f2 o1 L Lf Lb eq_refl
+                  Efx Elb Hside Hclass Hinv Hall Hcp Hwh
                   ltac:(exists nn, cval; auto 10))
         as (pe_n & ρ2 & -> & R2 & Hinv2 & Halln & G2 & Eo). cbn [fst snd] in *. subst outs1.
       exists sc1, st1, nh', n2, pe_n, ρ2.
